@@ -8,5 +8,6 @@ INVARIANT RunsOnce
 INVARIANT PerThreadOrder
 INVARIANT NoGaps
 INVARIANT Causal
+INVARIANT NoLostWakeup
 PROPERTY EventuallyAllRun
 CHECK_DEADLOCK FALSE
